@@ -153,6 +153,8 @@ func runC04(r *Run, verifDir string) {
 	c.l4Units("C04.L4")
 	c.l5Fallbacks()
 	c.l6VectorOrder()
+	c.l7SignPad()
+	c.l8EmptyByteString()
 }
 
 func runC18(r *Run, verifDir string) {
@@ -1111,6 +1113,208 @@ func (c *lexCtx) x4BinaryReaderTotal() {
 			r.Bad("C18.X4", key, bad, "ttlvReader.%s can fail on the value of a well-formed item: a value that the text readers accept and the binary writer emits is then rejected when the forwarded binary message is decoded again", m)
 		} else {
 			r.OK("C18.X4", key, fn.Pos(), "fails only through assertType or Next")
+		}
+	}
+}
+
+// ---------------------------------------------------------------- L7 / L8
+
+// l7SignPad: every writer that renders a big integer through bigIntToBytes uses the sign pad byte it returns.
+func (c *lexCtx) l7SignPad() {
+	r := c.r
+	r.Rule("C04.L7", "every caller of bigIntToBytes uses the returned sign pad byte (0x00 / 0xFF): negative values keep their sign in every encoding", 2)
+	b2b := c.p.Func("ttlv", "", "bigIntToBytes")
+	if b2b == nil {
+		r.Unk("C04.L7", "ttlv.bigIntToBytes", token.NoPos, "anchor missing")
+		return
+	}
+	for _, fn := range c.p.OwnFuncs() {
+		if idOf(fn).pkg != ttlvPath {
+			continue
+		}
+		n := 0
+		allInstrs(fn, func(in ssa.Instruction) {
+			call, ok := in.(*ssa.Call)
+			if !ok || call.Call.StaticCallee() != b2b {
+				return
+			}
+			n++
+			key := fmt.Sprintf("%s/bigIntToBytes#%d", fnKey(fn), n)
+			padUsed, lenUsed := false, false
+			for _, ref := range *call.Referrers() {
+				if ex, ok := ref.(*ssa.Extract); ok && len(*ex.Referrers()) > 0 {
+					switch ex.Index {
+					case 1:
+						padUsed = true
+					case 2:
+						lenUsed = true
+					}
+				}
+			}
+			switch {
+			case padUsed:
+				r.OK("C04.L7", key, call.Pos(), "pad byte and pad length of bigIntToBytes are both consumed")
+			case lenUsed:
+				r.Bad("C04.L7", key, call.Pos(), "%s pads the big integer by the length bigIntToBytes asks for but ignores the pad byte it returns: a negative value whose magnitude has its top bit set is written with 00 instead of FF and reads back as a positive number", fnKey(fn))
+			default:
+				r.Bad("C04.L7", key, call.Pos(), "%s ignores both the pad byte and the pad length of bigIntToBytes: the value is not sign-extended to the encoding's unit", fnKey(fn))
+			}
+		})
+	}
+}
+
+// nonNilSlice: v is a non-nil slice whenever the enclosing function returns normally.
+func nonNilSlice(p *Program, v ssa.Value, depth int) (bool, string) {
+	if depth > 5 {
+		return false, "too deep"
+	}
+	switch x := v.(type) {
+	case *ssa.MakeSlice:
+		return true, ""
+	case *ssa.Convert:
+		if b, ok := x.X.Type().Underlying().(*types.Basic); ok && b.Info()&types.IsString != 0 {
+			return true, "" // []byte(s) allocates, also for the empty string
+		}
+		return nonNilSlice(p, x.X, depth+1)
+	case *ssa.ChangeType:
+		return nonNilSlice(p, x.X, depth+1)
+	case *ssa.Slice:
+		// s[k:...] with k > 0 cannot be evaluated on a nil slice without panicking; s[:] of an array pointer is non-nil
+		if _, isArr := x.X.Type().Underlying().(*types.Pointer); isArr {
+			return true, ""
+		}
+		if k, ok := constIntVal(x.Low); ok && k > 0 {
+			return true, ""
+		}
+		return nonNilSlice(p, x.X, depth+1)
+	case *ssa.Phi:
+		for _, e := range x.Edges {
+			if ok, why := nonNilSlice(p, e, depth+1); !ok {
+				return false, why
+			}
+		}
+		return true, ""
+	case *ssa.Extract:
+		return nonNilSlice(p, x.Tuple, depth+1)
+	case *ssa.Const:
+		if x.IsNil() {
+			// a nil returned on the empty-reader path (len(buf) == 0) is excluded: typed reads run on validated readers (C02.R3)
+			return false, "nil constant"
+		}
+	case *ssa.Call:
+		id := callID(&x.Call)
+		switch {
+		case id.pkg == "encoding/hex" && id.name == "DecodeString", id.pkg == "encoding/base64" && id.name == "DecodeString", id.pkg == "bytes" && id.name == "Repeat":
+			return true, ""
+		case (id.pkg == "slices" || id.pkg == "bytes") && id.name == "Clone":
+			return nonNilSlice(p, x.Call.Args[0], depth+1)
+		case id.pkg == "encoding/hex" && id.name == "AppendDecode", id.pkg == "slices" && id.name == "Grow":
+			ok, _ := nonNilSlice(p, x.Call.Args[0], depth+1)
+			if ok {
+				return true, ""
+			}
+			return false, id.String() + " returns its (nil) destination unchanged for an empty input"
+		}
+		if b, ok := x.Call.Value.(*ssa.Builtin); ok && b.Name() == "append" {
+			ok, _ := nonNilSlice(p, x.Call.Args[0], depth+1)
+			if ok {
+				return true, ""
+			}
+			return false, "append to a nil slice stays nil when nothing is appended"
+		}
+		if sc := x.Call.StaticCallee(); sc != nil && strings.HasPrefix(idOf(sc).pkg, modPath) && sc.Blocks != nil {
+			// every normal return of the callee yields a non-nil slice (first slice-typed result)
+			all := true
+			why := ""
+			for _, b := range sc.Blocks {
+				ret, ok := b.Instrs[len(b.Instrs)-1].(*ssa.Return)
+				if !ok {
+					continue
+				}
+				for _, rv := range ret.Results {
+					if _, isSl := rv.Type().Underlying().(*types.Slice); !isSl {
+						continue
+					}
+					if k, isC := rv.(*ssa.Const); isC && k.IsNil() {
+						// error return (a non-nil error alongside) or the empty-reader guard
+						errRet := false
+						for _, o := range ret.Results {
+							if isErrorType(o.Type()) {
+								if ok, isC := o.(*ssa.Const); !isC || !ok.IsNil() {
+									errRet = true
+								}
+							}
+						}
+						emptyGuard := false
+						for _, dc := range dominatingConds(b) {
+							if bo, ok := dc.cond.(*ssa.BinOp); ok && bo.Op == token.EQL && dc.outcome {
+								if _, isLen := lenOperand(bo.X); isLen {
+									if z, ok := constIntVal(bo.Y); ok && z == 0 {
+										emptyGuard = true
+									}
+								}
+							}
+						}
+						if errRet || emptyGuard {
+							continue
+						}
+					}
+					if ok, w := nonNilSlice(p, rv, depth+1); !ok {
+						all, why = false, w
+					}
+					break
+				}
+			}
+			return all, why
+		}
+		return false, "result of " + id.String() + " not known to be non-nil"
+	}
+	return false, fmt.Sprintf("%T not known to be non-nil", v)
+}
+
+func isErrorType(t types.Type) bool {
+	n, ok := types.Unalias(t).(*types.Named)
+	return ok && n.Obj().Pkg() == nil && n.Obj().Name() == "error"
+}
+
+// l8EmptyByteString: a present, empty byte string is decoded to a non-nil slice by all three readers (the encoder's
+// omitempty drops nil slices, so a nil would make the element disappear on re-encoding).
+func (c *lexCtx) l8EmptyByteString() {
+	r := c.r
+	r.Rule("C04.L8", "ByteString readers return a non-nil slice on success (a present empty value must not turn into an absent one)", 3)
+	for _, recv := range []string{"ttlvReader", "xmlReader", "jsonReader"} {
+		fn := c.p.Func("ttlv", recv, "ByteString")
+		key := "ttlv." + recv + ".ByteString/non-nil"
+		if fn == nil {
+			r.Unk("C04.L8", key, token.NoPos, "anchor missing")
+			continue
+		}
+		bad := ""
+		nRet := 0
+		for _, b := range fn.Blocks {
+			ret, ok := b.Instrs[len(b.Instrs)-1].(*ssa.Return)
+			if !ok || len(ret.Results) != 2 {
+				continue
+			}
+			if k, isC := ret.Results[0].(*ssa.Const); isC && k.IsNil() {
+				// must be an error return: the error result is not the nil constant
+				if e, isC := ret.Results[1].(*ssa.Const); isC && e.IsNil() {
+					bad = "returns (nil, nil)"
+				}
+				continue
+			}
+			nRet++
+			if ok, why := nonNilSlice(c.p, ret.Results[0], 0); !ok {
+				bad = why
+			}
+		}
+		if bad != "" || nRet == 0 {
+			if bad == "" {
+				bad = "no success return found"
+			}
+			r.Bad("C04.L8", key, fn.Pos(), "%s.ByteString can return a nil slice for a present, empty byte string (%s): omitempty then drops the element when the message is re-encoded, so the three encodings are no longer interchangeable", recv, bad)
+		} else {
+			r.OK("C04.L8", key, fn.Pos(), "%d success return(s), each a non-nil slice (decode of a string, clone of a non-nil view, make)", nRet)
 		}
 	}
 }
